@@ -87,6 +87,14 @@ def byteChar (b : UInt8) : Char := Char.ofNat b.toNat
 
 /-! ### the only facts the byte-level models need: ASCII input decodes to itself -/
 
+theorem toNat_ofNat_ascii (n : Nat) (h : n < 0x80) : (Char.ofNat n).toNat = n := by
+  unfold Char.ofNat
+  have : n.isValidChar := by left; omega
+  simp [this, Char.ofNatAux, Char.toNat]
+
+theorem toNat_byteChar (b : UInt8) (h : b.toNat < 0x80) : (byteChar b).toNat = b.toNat :=
+  toNat_ofNat_ascii _ h
+
 theorem classify_ascii (n : Nat) (h : n < 0x80) : classify n = .ascii (Char.ofNat n) := by
   simp [classify, h]
 
